@@ -117,14 +117,16 @@ pub struct HistOut {
     pub c07: Vec<String>,
     pub c19: Vec<String>,
     pub trace: Vec<String>,
+    /// canonical state reached at the end (client map, connection flag, terminal ledger, dangling)
+    pub final_state: u64,
 }
 
 /// one history; `first` fixes the first operation (work distribution)
-pub fn history(ctx: &mut Ctx, p: &HistParams, first: usize, acc: &mut Acc) -> HistOut {
+pub fn history(ctx: &mut Ctx, p: &HistParams, first: Option<usize>, acc: &mut Acc) -> HistOut {
     let table: &'static Table = vcore::layout::shipped_static();
     let sh: Sh = Rc::new(RefCell::new(std::mem::replace(ctx, Ctx::new(vec![], vec![], 0))));
     let st = Rc::new(RefCell::new(PolSt { op: Op::Configure, tracker: Tracker::new(), chosen: vec![], eod_chosen: None, reported: None, lazy: false, p: p.clone() }));
-    let mut out = HistOut { c07: vec![], c19: vec![], trace: vec![] };
+    let mut out = HistOut { c07: vec![], c19: vec![], trace: vec![], final_state: 0 };
     {
         let sim = Sim::new(sh.clone(), Box::new(HistPolicy { st: st.clone() }));
         let mut cfg = base_config();
@@ -140,7 +142,10 @@ pub fn history(ctx: &mut Ctx, p: &HistParams, first: usize, acc: &mut Acc) -> Hi
                 let mut model = Model { open: Default::default(), max: p.max };
                 let mut closed_once: Vec<String> = vec![];
                 for step in 0..p.depth {
-                    let oi = if step == 0 { first } else { sh.borrow_mut().any(p.ops.len(), "op") };
+                    let oi = match (step, first) {
+                        (0, Some(f)) => f,
+                        _ => sh.borrow_mut().any(p.ops.len(), "op"),
+                    };
                     let op = p.ops[oi].clone();
                     {
                         let mut s = st.borrow_mut();
@@ -368,7 +373,8 @@ pub fn history(ctx: &mut Ctx, p: &HistParams, first: usize, acc: &mut Acc) -> Hi
                     if sim.w.borrow().t.conns.len() != 1 {
                         out.c07.push(format!("step {step} {}: the client reconnected although no exchange failed", op.label()));
                     }
-                    acc.set("states", h64(&(p.max, &snap, &sim.w.borrow().t.ledger, sim.w.borrow().t.dangling)));
+                    out.final_state = h64(&(p.max, &snap, feig.verif_snapshot().1, &sim.w.borrow().t.ledger, sim.w.borrow().t.dangling));
+                    acc.set("states", out.final_state);
                     if !out.c07.is_empty() || !out.c19.is_empty() {
                         break;
                     }
@@ -380,4 +386,62 @@ pub fn history(ctx: &mut Ctx, p: &HistParams, first: usize, acc: &mut Acc) -> Hi
     }
     *ctx = Rc::try_unwrap(sh).ok().expect("context still shared").into_inner();
     out
+}
+
+
+/// State-deduplicated breadth-first search: from every distinct state reached so far (a
+/// representative history is replayed to get there) every operation with every terminal outcome is
+/// executed once; new states join the frontier. Sound as long as the state (client map, connection
+/// flag, terminal ledger, dangling pre-authorisation) determines the future, which holds for the
+/// real client (no other mutable state); the exhaustive histories of bounded depth do not rely on
+/// this assumption. Returns (levels completed, states, transitions, fixpoint reached).
+pub fn bfs(p: &HistParams, max_depth: usize, key: &str, pick: fn(&HistOut) -> &Vec<String>, acc: &mut Acc) -> (usize, usize, u64, bool) {
+    use std::collections::HashSet;
+    let mut seen: HashSet<u64> = HashSet::new();
+    let mut frontier: Vec<Vec<u32>> = vec![vec![]];
+    let mut transitions = 0u64;
+    let mut levels = 0;
+    let mut fix = false;
+    for depth in 1..=max_depth {
+        let results: std::sync::Mutex<Vec<(Vec<u32>, u64)>> = std::sync::Mutex::new(vec![]);
+        let pp = HistParams { depth, ..p.clone() };
+        let part = par_for(frontier.len(), |ix, acc| {
+            let start = &frontier[ix];
+            let mut local: Vec<(Vec<u32>, u64)> = vec![];
+            vcore::dbx::explore_from(start, 0, 10_000_000, |ctx| {
+                let o = history(ctx, &pp, None, acc);
+                acc.count("executions", 1);
+                acc.count("bfs_transitions", 1);
+                let problems = pick(&o);
+                let choices = ctx.choices();
+                if !problems.is_empty() {
+                    acc.violation(crate::util::viol(
+                        format!("{key}/bfs/depth={depth}/choices={choices:?}"),
+                        format!("state-deduplicated search, depth {depth}\nhistory:\n  {}\nviolations:\n  {}", o.trace.join("\n  "), problems.join("\n  ")),
+                        depth as u64,
+                    ));
+                } else {
+                    local.push((choices, o.final_state));
+                }
+            });
+            results.lock().unwrap().extend(local);
+        });
+        acc.merge(part);
+        let mut all = results.into_inner().unwrap();
+        all.sort();
+        transitions += all.len() as u64;
+        let mut next = vec![];
+        for (choices, state) in all {
+            if seen.insert(state) {
+                next.push(choices);
+            }
+        }
+        levels = depth;
+        if next.is_empty() {
+            fix = true;
+            break;
+        }
+        frontier = next;
+    }
+    (levels, seen.len(), transitions, fix)
 }
